@@ -78,6 +78,9 @@ class Block:
             https://cfd.direct/openfoam/user-guide/v9-blockMesh/#multi-grading;
             Multiple gradings are specified by multiple calls to .chop() with
             the same 'axis' parameter."""
+        if axis not in (0, 1, 2):
+            raise ValueError(f"Invalid axis ({axis}). Use 0, 1 or 2.")
+
         self.axes[axis].chop(chop)
 
     def get_axis_wires(self, axis: AxisType) -> List[Wire]:
